@@ -5,7 +5,10 @@ M=${MREPO:-/tmp/mrepo}; B=${MBUILD:-/tmp/vt/build}; V=$(cd "$(dirname "$0")/.." 
 [ "$MREPO_LOCKED" = 1 ] || { export MREPO_LOCKED=1; exec flock $M.lock "$0" "$@"; }
 set -e
 P=$1; F=$2; E=$3; shift 3
-rm -rf $M; rsync -a --exclude target --exclude .git /repo/ $M/
+# sync the scratch copy WITHOUT deleting it, and give every file whose content changed (e.g. the previous run's patch being reverted)
+# a fresh mtime: cargo's fingerprints are mtime based, and rsync -a would restore the OLD mtime, leaving the previous change compiled in
+rm -rf $B/target-native $B/target-kani   # never reuse compiled crates across different source states (cargo's mtime fingerprints are not reliable here)
+mkdir -p $M; rsync -a --checksum --delete --exclude target --exclude .git --itemize-changes /repo/ $M/ | awk '$1 ~ /^>f/ {print $2}' | (cd $M && xargs -r touch)
 sed -i "$E" $M/$F
 if diff -q /repo/$F $M/$F >/dev/null; then echo "MUTATION DID NOT APPLY"; exit 3; fi
 diff /repo/$F $M/$F | head -8
